@@ -11,11 +11,12 @@ pub struct TcpHeader {
     dstport: u16,     // Destination port number
     sequence: u32,    // Sequence number
     ack: u32,         // Acknowledgment number
-    data_off: u8,     // Data offset
-    flags: u16,       // Flags for TCP
+    data_off: u8,     // Data offset (upper 4 bits of the 13th byte)
+    flags: u16,       // Reserved bits and flags (the 12 bits after the data offset)
     window_size: u16, // Window size
     checksum: u16,    // Checksum for integrity
     urgent: u16,      // Urgent pointer
+    options: Vec<u8>, // header bytes beyond the fixed 20 (when data_off > 5)
 }
 
 impl From<&TcpHeader> for Vec<u8> {
@@ -25,9 +26,12 @@ impl From<&TcpHeader> for Vec<u8> {
         bytes.extend_from_slice(&hdr.dstport.to_be_bytes());
         bytes.extend_from_slice(&hdr.sequence.to_be_bytes());
         bytes.extend_from_slice(&hdr.ack.to_be_bytes());
-        bytes.extend_from_slice(&hdr.flags.to_be_bytes());
+        let off_flags: u16 = ((hdr.data_off as u16) << 12) | (hdr.flags & 0x0FFF);
+        bytes.extend_from_slice(&off_flags.to_be_bytes());
         bytes.extend_from_slice(&hdr.window_size.to_be_bytes());
         bytes.extend_from_slice(&hdr.checksum.to_be_bytes());
+        bytes.extend_from_slice(&hdr.urgent.to_be_bytes());
+        bytes.extend_from_slice(&hdr.options);
         bytes
     }
 }
@@ -85,7 +89,14 @@ impl Tcp {
             rawdata[off + 11],
         ]);
         let data_off = rawdata[off + 12] >> 4;
-        let flags = u16::from_be_bytes([rawdata[off + 12], rawdata[off + 13]]);
+        let flags = u16::from_be_bytes([rawdata[off + 12], rawdata[off + 13]]) & 0x0FFF;
+        // The header is data_off 32-bit words long. A data offset below the
+        // fixed part is malformed: the payload then starts after the fixed part.
+        let header_len = std::cmp::max(data_off as usize * 4, TCP_HEADER_SIZE);
+        if rawdata.len() < off + header_len {
+            return Err(PacketError::InvalidLength(rawdata.len()));
+        }
+        let options = rawdata[off + TCP_HEADER_SIZE..off + header_len].to_vec();
         let window_size = u16::from_be_bytes([rawdata[off + 14], rawdata[off + 15]]);
         let checksum = u16::from_be_bytes([rawdata[off + 16], rawdata[off + 17]]);
         let urgent = u16::from_be_bytes([rawdata[off + 18], rawdata[off + 19]]);
@@ -100,12 +111,13 @@ impl Tcp {
             window_size,
             checksum,
             urgent,
+            options,
         });
 
         Ok(Self {
             header,
             rawdata: RefCell::new(rawdata),
-            offset: off + TCP_HEADER_SIZE,
+            offset: off + header_len,
             inner: RefCell::new(None),
         })
     }
@@ -130,8 +142,10 @@ impl Tcp {
         Rc::new(Object::Integer(self.header.borrow().data_off as i64))
     }
 
+    // The flags property is the eight flag bits CWR .. FIN; the reserved
+    // bits next to the data offset are kept as captured.
     pub fn get_flags(&self) -> Rc<Object> {
-        Rc::new(Object::Integer(self.header.borrow().flags as i64))
+        Rc::new(Object::Integer((self.header.borrow().flags & 0x00FF) as i64))
     }
 
     pub fn get_window_size(&self) -> Rc<Object> {
@@ -189,6 +203,9 @@ impl Tcp {
     pub fn set_data_off(&self, data_off: Rc<Object>) -> Result<(), String> {
         match data_off.as_ref() {
             Object::Integer(data_off_value) => {
+                if *data_off_value < 0 || *data_off_value > 15 {
+                    return Err("Invalid value for data offset".to_string());
+                }
                 self.header.borrow_mut().data_off = *data_off_value as u8;
                 Ok(())
             }
@@ -199,7 +216,11 @@ impl Tcp {
     pub fn set_flags(&self, flags: Rc<Object>) -> Result<(), String> {
         match flags.as_ref() {
             Object::Integer(flags_value) => {
-                self.header.borrow_mut().flags = *flags_value as u16;
+                if *flags_value < 0 || *flags_value > 255 {
+                    return Err("Invalid value for flags".to_string());
+                }
+                let reserved = self.header.borrow().flags & 0x0F00;
+                self.header.borrow_mut().flags = reserved | (*flags_value as u16);
                 Ok(())
             }
             _ => Err("Invalid value for flags".to_string()),
